@@ -154,7 +154,9 @@ def check_code_tree(rep, name, ret, W):
         rep.fail("C11.codes", inst, "an error-code leaf is not a constant", where=W)
         return
     zeros_ = [i for i, v in enumerate(vals) if v == 0]
-    good = len(zeros_) == 1 and all(not flag for _, flag in ls[zeros_[0]][0]) and len(set(vals)) == len(vals)
+    # (which side of a test is "true" is a matter of spelling - `B <= 0 ? 2 : ...` and `B > 0 ? ... : 2` are one value -
+    # so the rule is on the leaves: one accepting leaf, every rejecting leaf with its own non-zero code)
+    good = len(zeros_) == 1 and len(set(vals)) == len(vals)
     rep.check("C11.codes", inst, good, "error-code leaves %s (paths %s)" % (vals, [[f for _, f in p] for p, _ in ls]), where=W, fact={"codes": [str(v) for v in vals]})
 
 
